@@ -595,6 +595,21 @@ impl Gen {
                 break;
             }
             let pt = self.payload_ty(*decl, targs, *ctor);
+            // split the arm on the constructors of a data-typed payload: `+C(+K1(p)) | +C(+K2(q))`
+            if let VTy::Data(d2, targs2) = &pt {
+                let n2 = self.decls.data[*d2].ctors.len();
+                if self.cfg.nested_patterns && n2 <= 3 && self.rng.chance(1, 3) {
+                    self.feat("nested-ctor-pattern");
+                    for k2 in 0..n2 {
+                        let pt2 = self.payload_ty(*d2, targs2, k2);
+                        let mut binds = Vec::new();
+                        let inner2 = self.gen_pat(&pt2, 0, &mut binds);
+                        let body = self.gen_comp(&ctx.with_all(&binds), ty, depth - 1);
+                        arms.push((Pat::Ctor(*decl, *ctor, Box::new(Pat::Ctor(*d2, k2, Box::new(inner2)))), body));
+                    }
+                    continue;
+                }
+            }
             let mut binds = Vec::new();
             let inner = if self.cfg.nested_patterns && self.rng.chance(1, 3) {
                 self.gen_pat(&pt, 2, &mut binds)
